@@ -63,7 +63,7 @@ def run(ctx):
             n = len(model)
             lens = [len(s) for s in model]
             ops = ["row_slice", "row_slice", "row_mask", "row_fancy", "col_slice", "col_reverse", "eq_char", "copy", "ravel", "concat", "tolist", "assign_row", "assign_elem", "neq_char",
-                   "str_equal_ragged", "str_equal_str", "as_string_array", "view_copy_assign", "view_copy_assign", "concat_assign", "eq_ragged_other_enc", "rows_to_array_assign", "string_array_eq_list", "from_encoded_array"]
+                   "str_equal_ragged", "str_equal_str", "as_string_array", "view_copy_assign", "view_copy_assign", "concat_assign", "eq_ragged_other_enc", "rows_to_array_assign", "string_array_eq_list", "from_encoded_array", "concat_other_enc"]
             if n:
                 ops += ["row_int", "row_int", "elem", "row_int_col_slice"]
             if n == 1:
@@ -110,6 +110,10 @@ def run(ctx):
                     raise Skip()
                 i = r.randint(-n, n - 1)
                 return op, {"i": i, "value": "".join(r.choice(alpha) for _ in range(lens[norm_index(i, n)])), "as": r.choice(["str", "str", "same-encoding", "ascii-array"])}
+            if op == "concat_other_enc":
+                # the rows appended are held in another encoding (plain text next to an alphabet, an alphabet next to plain text): converted, or refused
+                a_ = "ACGT" if ename == "ascii" else alpha
+                return op, {"other": ["".join(r.choice(a_) for _ in range(r.randint(0, 4))) for _ in range(r.randint(1, 3))], "lower": r.random() < 0.3}
             if op == "concat_assign":
                 # concatenate (one side possibly empty), assign INTO the result, then look at the operand: a concatenation is a new array
                 other = ["".join(r.choice(alpha) for _ in range(r.randint(0, 4))) for _ in range(r.choice([0, 0, 1, 2]))]
@@ -163,7 +167,7 @@ def run(ctx):
             return op, {}
         if kind == "flat":
             n = len(model)
-            ops = ["slice", "slice", "mask", "fancy", "reverse", "eq_char", "eq_str", "eq_arr", "copy", "ravel", "concat", "to_string", "assign_slice", "assign_scalar", "concat_assign", "assign_encoded", "eq_arr_other_order"]
+            ops = ["slice", "slice", "mask", "fancy", "reverse", "eq_char", "eq_str", "eq_arr", "copy", "ravel", "concat", "to_string", "assign_slice", "assign_scalar", "concat_assign", "assign_encoded", "eq_arr_other_order", "concat_other_enc"]
             if n:
                 ops += ["int", "int"]
             op = r.choice(ops)
@@ -186,6 +190,8 @@ def run(ctx):
                 return op, {"s": "".join(ch if r.random() < 0.6 else r.choice("ACGT") for ch in model.upper()), "neq": r.random() < 0.3}
             if op == "concat":
                 return op, {"other": "".join(r.choice(alpha) for _ in range(r.randint(0, 4)))}
+            if op == "concat_other_enc":
+                return op, {"other": "".join(r.choice("ACGT" if ename == "ascii" else alpha) for _ in range(r.randint(1, 4))), "lower": r.random() < 0.3}
             if op == "assign_slice":
                 if n == 0:
                     raise Skip()
@@ -269,6 +275,8 @@ def run(ctx):
                 return "flat", "".join(model)
             if op == "concat":
                 return "ragged", ([U(s) for s in p["other"]] + model) if p.get("other_first") else (model + [U(s) for s in p["other"]])
+            if op == "concat_other_enc":
+                return "ragged", model + [U(s) for s in p["other"]]
             if op == "tolist":
                 return "pylist", list(model)
             if op == "assign_row":
@@ -332,6 +340,8 @@ def run(ctx):
                 return "flat", model
             if op == "concat":
                 return "flat", model + U(p["other"])
+            if op == "concat_other_enc":
+                return "flat", model + U(p["other"])
             if op == "to_string":
                 return "pystr", model
             if op == "assign_slice":
@@ -374,6 +384,22 @@ def run(ctx):
                 return "flat", "".join(model)
         raise Skip()
 
+    def concat_other_enc(obj, p, ename):
+        texts = p["other"]
+        if ename == "ascii":
+            other = bnp.as_encoded_array(texts, ae.ACGTEncoding)
+        else:
+            other = bnp.as_encoded_array([t.lower() for t in texts] if isinstance(texts, list) else texts.lower()) if p["lower"] else bnp.as_encoded_array(texts)
+        try:
+            res = np.concatenate([obj, other])
+        except Exception as e:
+            if not originates_in_library(e):
+                raise
+            ctx.count("refused:concatenation-with-an-operand-in-another-encoding")
+            raise Skip()
+        ctx.count("joined:concatenation-with-an-operand-in-another-encoding")
+        return res
+
     def apply_real(kind, obj, op, p, ename):
         enc = ENC[ename]
         mk = lambda s: bnp.as_encoded_array(s, enc) if ename != "ascii" else bnp.as_encoded_array(s)
@@ -415,6 +441,8 @@ def run(ctx):
             if op == "concat":
                 other = mk(p["other"]) if (p["other"] or p.get("empty_list")) else obj[:0]      # mk([]) : an array built from a list without rows
                 return np.concatenate([other, obj] if p.get("other_first") else [obj, other])
+            if op == "concat_other_enc":
+                return concat_other_enc(obj, p, ename)
             if op == "tolist":
                 return obj.tolist()
             if op == "assign_row":
@@ -514,6 +542,8 @@ def run(ctx):
                 return obj.ravel()
             if op == "concat":
                 return np.concatenate([obj, mk(p["other"])])
+            if op == "concat_other_enc":
+                return concat_other_enc(obj, p, ename)
             if op == "to_string":
                 return obj.to_string()
             if op == "assign_slice":
